@@ -316,3 +316,17 @@ def run(ctx):
                     ok = in_codec or rewrap
                     ctx.ob("A3", b.defp, f"construct:{s['rv']['variant']}", loc(s["sp"]), ok, "constructed in a server codec" if in_codec else ("re-wraps a matched relay item" if rewrap else "relay item constructed outside the server codecs from something that is not a matched relay item"))
     ctx.floor("A3", "relay item constructor sites", 8, n)
+    # ---------------- A4 a cached datagram cipher is only reused under the key it was built from (C12 N4, shared verdict) -----------
+    # two servers / users with different keys share the process-wide cipher cache: if the cache key does not identify the key bytes, a
+    # datagram sealed under one key is opened (and relayed) by an entry that was created for another
+    from ..engine import Ctx
+    from . import c12
+    sub = Ctx(prog, "C12", ctx.tier)
+    c12.run(sub)
+    n4 = 0
+    for o in sub.obs:
+        if o.rule == "N4":
+            n4 += 1
+            parts = o.key.split("|")
+            ctx.ob("A4", parts[1], parts[2], o.where, o.ok or o.verdict == "reviewed-safe", o.detail)
+    ctx.floor("A4", "datagram cipher cache key obligations (imported from C12 N4)", 1, n4)
